@@ -17,13 +17,18 @@ LEVEL = "model_checking"
 
 RANGES = [(0, 0), (0, 9), (-5, 5), (-3, -3), (0, 2 ** 62),
           (-2 ** 70, 2 ** 70), (0, 2 ** 1000), (2 ** 60 + 100, 2 ** 60 + 109),
+          (0, 2 ** 1100), (-2 ** 2000, 2 ** 2000),
           (2 ** 53 + 1, 2 ** 53 + 1), (-2 ** 60 - 9, -2 ** 60)]
 SEEDS = [0, 1, -1, 2 ** 64 + 3]
 START_SEEDS = [101, 0, -7, 2 ** 70 + 1]
 
 
+BAD_INT = [(0, None), ("1", 6), (0, [9]), (None, None), (2.5, "x")]
+
+
 def alphabet():
     return ([("f",), ("b",)] + [("i", lo, hi) for lo, hi in RANGES]
+            + [("badint", k) for k in range(len(BAD_INT))]
             + [("seed", s) for s in SEEDS]
             + [("reset",), ("save",), ("restore",)])
 
@@ -102,6 +107,15 @@ def run_real(MT, start, seq, other=None):
         k = op[0]
         if k in ("f", "b", "i"):
             out.append(draw(s, op))
+        elif k == "badint":
+            # a request that has to be refused: the stream is not advanced
+            lo, hi = BAD_INT[op[1]]
+            try:
+                out.append(("accepted", s.next_int(lo, hi)))
+            except (TypeError, ValueError):
+                out.append(None)
+            except Exception as ex:  # noqa
+                out.append(("raised", type(ex).__name__))
         elif k == "seed":
             s.set_seed(op[1])
             out.append(None)
@@ -131,6 +145,8 @@ def check_seq(MT, start, seq):
     ref = RefStream(MT, start)
     for i, op in enumerate(seq):
         e = ref.apply(op)
+        if op[0] == "badint" and a[i] is not None:
+            bad.append(("ill-typed-range-not-refused", i, op, a[i]))
         if op[0] in ("f", "b", "i"):
             if not in_range(op, a[i]):
                 bad.append(("out-of-range", i, op, a[i]))
@@ -149,9 +165,41 @@ def check_seq(MT, start, seq):
     return bad
 
 
+def block_stream_class():
+    """a user subclass of the stream that keeps derived state: it serves
+    floats from a buffer of four pre-drawn numbers and empties the buffer
+    whenever it is (re)seeded; state saving includes the buffer"""
+    from pydsol.core.streams import MersenneTwister
+
+    class BlockStream(MersenneTwister):
+        def __init__(self, seed=None):
+            self._buf = []
+            super().__init__(seed)
+
+        def set_seed(self, seed):
+            self._buf = []
+            super().set_seed(seed)
+
+        def next_float(self):
+            if not self._buf:
+                self._buf = [super(BlockStream, self).next_float()
+                             for _ in range(4)]
+            return self._buf.pop(0)
+
+        def save_state(self):
+            return (super().save_state(), list(self._buf))
+
+        def restore_state(self, st):
+            super().restore_state(st[0])
+            self._buf = list(st[1])
+    return BlockStream
+
+
 def worker(task):
-    first, L, starts = task
+    first, L, starts = task[:3]
     from pydsol.core.streams import MersenneTwister as MT
+    if len(task) > 3 and task[3] == "block":
+        MT = block_stream_class()
     A = alphabet()
     n = 0
     viols = []
@@ -169,7 +217,9 @@ def worker(task):
                 if sample is None and k == L - 1:
                     sample = {"start_seed": start, "ops": list(seq)}
                 for b in bad:
-                    viols.append((b[0], {"start": start, "ops": list(seq)}, b))
+                    viols.append((b[0], {"start": start, "ops": list(seq),
+                                         "cls": task[3] if len(task) > 3
+                                         else "plain"}, b))
                     if len(viols) > 300:
                         return dict(n=n, viols=viols, sample=sample)
     return dict(n=n, viols=viols, sample=sample)
@@ -344,6 +394,8 @@ def run(ctx):
     # a stream constructed without a seed is as reproducible (through the seed
     # it reports) as a seeded one
     tasks += [(a, L - 1, [None]) for a in alphabet()]
+    # a user subclass with derived state (buffered floats)
+    tasks += [(a, L - 1, [101, -7], "block") for a in alphabet()]
     total = 0
     for r in common.pimap(worker, tasks):
         total += r["n"]
@@ -400,5 +452,7 @@ def replay(data):
         n, bad, ok = scripted_range()
         return bad[:3] or None
     from pydsol.core.streams import MersenneTwister as MT
+    if data.get("cls") == "block":
+        MT = block_stream_class()
     seq = tuple(tuple(o) for o in data["ops"])
     return check_seq(MT, data["start"], seq) or None
